@@ -24,7 +24,7 @@
   move is compared with the proved oracle, and the model replays the same run from the engine's
   order log and must agree exactly (node counts, info lines, sent boards).
 -/
-import Walleye.Proofs.AbSpec
+import Walleye.Proofs.RootSpec
 namespace Walleye
 open Spec
 
@@ -63,6 +63,29 @@ theorem engine_search_exact {O : Type} (ord : Oracle P O) (E : Nat) (hg : GameOK
     (h1 : a < negamax g fuel depth ply t p) (h2 : negamax g fuel depth ply t p < b)
     (he : alphaBeta g ord fuel p depth ply a b n s = .ok v s') : v = negamax g fuel depth ply t p :=
   ab_exact g ord E hg hord fuel p depth ply a b n t s s' v hd hE hst h1 h2 he
+
+/-- the chess model meets the game hypotheses (bounded evaluation by C14; the minimax value ignores
+    the ordering tag), so the two theorems above hold for the model of the real engine, every hasher -/
+theorem chess_engine_search_is_minimax {O : Type} (h : Hasher) (ord : Oracle Pos O) (hord : OrdPerm ord)
+    (fuel : Nat) (p : Pos) (depth ply : Nat) (a b : Int) (n : Bool) (t : DrawTable)
+    (hd : depth < 3) (hab : a < b) (hE : (70400 : Int) + ply + fuel < Gen.mateScore) :
+    Triple (St t) (alphaBeta (chessGame h) ord fuel p depth ply a b n)
+      (fun v s' => Bnd (negamax (chessGame h) fuel depth ply t p) a b v ∧ St t s') :=
+  ab_spec (chessGame h) ord 70400 (chess_gameOK h) hord fuel p depth ply a b n t hd hab hE
+
+/-- `root_exact`: one iteration (1, 2 or 3) of the root loop with a clock that does not expire ends
+    with alpha = the maximum over all root moves of their exact minimax values, and — when alpha was
+    raised — remembers a move attaining it: "the score reported equals the exact minimax value and
+    the move selected attains it" -/
+theorem root_exact {O : Type} (ord : Oracle P O) (E : Nat) (hg : GameOK g E) (hord : OrdPerm ord)
+    (fuel curDepth : Nat) (first : P) (t : DrawTable) (hcd : curDepth - 1 < 3)
+    (hE : (E : Int) + 1 + fuel < Gen.mateScore) (l : List P) (best : Option P) :
+    Triple (St t) (rootLoop g ord fuel curDepth first l (-Gen.posInf) best)
+      (fun r s' => St t s' ∧ ∃ A B, r = some (A, B) ∧
+        A = maxNeg (negamax g fuel (curDepth - 1) 1 t) l (-Gen.posInf) ∧
+        (-Gen.posInf < A → ∃ m ∈ l, B = some m ∧ - negamax g fuel (curDepth - 1) 1 t m = A) ∧
+        (A = -Gen.posInf → B = best)) :=
+  rootLoop_triple g ord E hg hord fuel curDepth first t hcd hE l (-Gen.posInf) best (Int.le_refl _) (by decide)
 
 /-- non-vacuity: a two-move game where the second move is better; any window containing the value -/
 example : maxNeg (fun (x : Nat) => (x : Int)) [3, 1] (-5) = -1 := by decide
